@@ -18,7 +18,7 @@ U("c13_wildcard", ["C13"], "h_wildcard", ["C13/tr.c", "C13/file_tu.c"], _C13_REP
   min_obligations=50, timeout=600, cost=30, assumptions=_C13_STUBS)
 for _nf, _tier, _to in ((1, "quick", 600),):
     U("c13_graph_F%d" % _nf, ["C13", "C01"], "h_graph", ["C13/tr.c", "C13/file_tu.c"], _C13_REPO, plain=True, lib=_C13_SINK,
-      defines=["-DSINK_CAP=9", "-DTRACK_ADVANCE", "-DSHAPED", "-DNFILES=%d" % _nf], kind="bounded", tier=_tier,
+      defines=["-DSINK_CAP=9", "-DTRACK_ADVANCE", "-DSHAPED", "-DCONCRETE_GRAPH", "-DNFILES=%d" % _nf], kind="bounded", tier=_tier,
       bounds={"files": _nf, "file content": "{{x}} with x a symbolic byte (one marker per file)", "file path": "/p with p a symbolic byte",
               "top-level source": "c0{{x}}c1, three symbolic bytes", "recursion depth<=": "number of files (recursion unwinding assertion)", "unwind": 10},
       cbmc_flags=["--unwind", "10", "--unwindset", "mmd_transclude_source:%d,mmd_transclude_source.2:2,mmd_transclude_source.0:%d" % (_nf, _nf + 3), "--unwinding-assertions"], functions=["mmd_transclude_source"],
